@@ -8,7 +8,11 @@ mkdir -p $VERIF_SNAP/.work; cp -r /verif/.work/fam $VERIF_SNAP/.work/ 2>/dev/nul
 export WT_ROOT=${WT_ROOT:-/tmp/wt}
 export SEED_TAG=${SEED_TAG:-}
 export KS=${KS:-1 2}
-extra() { case "$1" in C11-2) echo C06;; C14-2) echo C06;; C08-2) echo C06;; C06-2) echo C12;; C17-2) echo "C05";; *) echo "";; esac; }
+extra() { case "$1" in
+  C11-2) echo C06;; C14-2) echo C06;; C08-2) echo C06;; C06-2) echo C12;; C17-2) echo C05;;
+  C02-r2-2) echo C11;; C09-r2-1) echo C06;; C09-r2-2) echo C19;; C10-r2-2) echo C06;; C10-r2-3) echo "C01 C04";;
+  C11-r2-1) echo C06;; C14-r2-3) echo C06;; C18-r2-1) echo C03;; C18-r2-2) echo C14;;
+  *) echo "";; esac; }
 run() { P=$1; K=$2; $VERIF_SNAP/tools/seedtest.sh $P $K $P $(extra $P-$SEED_TAG$K) > /tmp/seedall.$P-$SEED_TAG$K.log 2>&1; echo "$P-$SEED_TAG$K $(tail -2 /tmp/seedall.$P-$SEED_TAG$K.log | tr "\n" " ")"; }
 export -f run extra
 # the two changes of a property share a worktree: one job per property
